@@ -227,6 +227,16 @@ def semi(prog: Program, rep: Report):
                    (f"a {role} position yields from self.{pool}" if pool != want_pool else
                     f"self.{pool} is indexed with an iterator built over {show(it)}: indices of the other pool's size"),
                    line=fa.line(n), clause="C13.2")
+    if not ys:
+        # no per-position yields at all: another construction of the stream
+        chunk = _semi_chunk_form(fa, L, U)
+        if chunk is None:
+            rep.unk("G9.semi-pools", fi, "both-pools", "the stream is neither written position by position (i % (L+U) < L) nor "
+                    "chunk by chunk (islice of the pool iterators): not decided", clause="C13.2")
+        else:
+            for construct, ok_, why_ in chunk:
+                rep.decide(ok_, "G9.semi-pools", fi, construct, why_, why_, clause="C13.2")
+        return
     rep.decide({"labeled", "unlabeled"} <= seen, "G9.semi-pools", fi, "both-pools",
                "both a labeled and an unlabeled branch exist with the i % (L+U) < L split",
                "the stream is not split by i % (num_labeled + num_unlabeled) < num_labeled", clause="C13.2")
@@ -237,6 +247,120 @@ def semi(prog: Program, rep: Report):
              for i, nd in fa.cfg.nodes.items() if nd.kind == "iter")
     rep.decide(ok, "G9.semi-pools", fi, "length", "for i in range(len(self))", "the stream length is not len(self)",
                clause="C13.2", nontrivial=False)
+
+
+def _semi_chunk_form(fa: FA, L: Term, U: Term):
+    """The chunk-wise spelling of the semi-supervised stream:
+        full, trail = divmod(len(self), L + U)
+        for _ in range(full): yield from islice(lab, L); yield from islice(unl, U)
+        yield from islice(lab, min(trail, L)); yield from islice(unl, max(trail - L, 0))
+    -> [(construct, verdict, text)] or None when the function is not of this shape."""
+    cfg = fa.cfg
+    me = fa.self_name
+    ln_self = ("call", ("global", "len"), (("param", me),), ())
+    # pool iterators: locals bound to a call that is given exactly one of the pools
+    pools = {("self", "labeled_idxs"): "labeled", ("self", "unlabeled_idxs"): "unlabeled"}
+    its = {}
+    for n, var, val in fa.stores():
+        if val is None or "." in var:
+            continue
+        t = fa.sym.term(val, n)
+        if t[0] == "call":
+            args_ = list(t[2]) + [v for k, v in t[3] if not str(k).startswith("#")]
+            hit = [pools[a] for a in args_ if a in pools]
+            if len(hit) == 1:
+                its[var] = hit[0]
+    if len(set(its.values())) != 2:
+        return None
+    slices = []  # (node, role, count term, inside loop node or None)
+    for n, y in fa.yields():
+        if not isinstance(y, ast.YieldFrom):
+            return None
+        v = y.value
+        if not (isinstance(v, ast.Call) and ((isinstance(v.func, ast.Name) and v.func.id == "islice") or (
+                isinstance(v.func, ast.Attribute) and v.func.attr == "islice")) and len(v.args) == 2 and
+                isinstance(v.args[0], ast.Name) and v.args[0].id in its):
+            return None
+        loop = None
+        for t_, lab in cfg.control_predicates(n):
+            if cfg.nodes[t_].kind == "next" and n in cfg.nodes_inside(cfg.nodes[t_].owner.body):
+                loop = t_
+        cnt = v.args[1]
+        node = n
+        if isinstance(cnt, ast.Name):
+            ds = [d for d in cfg.reaching().get(n, {}).get(cnt.id, ()) if cfg.nodes[d].kind != "entry"]
+            if len(ds) == 1 and cfg.def_value(ds[0], cnt.id) is not None and isinstance(cfg.def_value(ds[0], cnt.id), ast.Call):
+                cnt, node = cfg.def_value(ds[0], cnt.id), ds[0]
+        slices.append((n, its[v.args[0].id], fa.sym.term(cnt, node), loop))
+    if len(slices) != 4:
+        return None
+    # divmod(len(self), L + U)
+    dm = None
+    for n, nd in cfg.nodes.items():
+        st = nd.ast if nd.kind == "stmt" else None
+        if isinstance(st, ast.Assign) and isinstance(st.targets[0], ast.Tuple) and len(st.targets[0].elts) == 2 and \
+                isinstance(st.value, ast.Call) and isinstance(st.value.func, ast.Name) and st.value.func.id == "divmod" and \
+                len(st.value.args) == 2 and all(isinstance(e, ast.Name) for e in st.targets[0].elts):
+            dm = (n, st.targets[0].elts[0].id, st.targets[0].elts[1].id, fa.sym.term(st.value.args[0], n),
+                  fa.sym.term(st.value.args[1], n))
+    if dm is None:
+        return None
+    n_dm, full, trail, num, den = dm
+    out = []
+    chunk = Poly.atom(L) + Poly.atom(U)
+    out.append(("chunks", num == ln_self and term_to_poly(den) == chunk,
+                "full chunks and trailing positions = divmod(len(self), num_labeled + num_unlabeled)" if num == ln_self and
+                term_to_poly(den) == chunk else f"the stream is divided as divmod({show(num)}, {show(den)}), not divmod(len(self), "
+                                               f"num_labeled + num_unlabeled)"))
+    in_loop = [s_ for s_ in slices if s_[3] is not None]
+    after = [s_ for s_ in slices if s_[3] is None]
+    if len(in_loop) != 2 or len(after) != 2 or in_loop[0][3] != in_loop[1][3]:
+        return None
+    lp = cfg.nodes[in_loop[0][3]].owner
+    it_t = fa.sym.term(lp.iter, cfg.stmt_node[lp])
+    full_t = None
+    if it_t[0] == "call" and it_t[1] == ("global", "range") and len(it_t[2]) == 1:
+        full_t = it_t[2][0]
+    out.append(("chunk-count", full_t is not None and full_t[0] == "var" and full_t[1] == full,
+                "the chunk loop runs once per full chunk", ) if full_t is not None and full_t[0] == "var" and full_t[1] == full else
+               ("chunk-count", False, f"the chunk loop runs {show(it_t)} times, not once per full chunk"))
+    a_, b_ = in_loop
+    in_loop = [a_, b_] if cfg.reachable(a_[0], b_[0], avoid={a_[3]}) else [b_, a_]
+    ok_order = [s_[1] for s_ in in_loop] == ["labeled", "unlabeled"]
+    ok_counts = in_loop[0][2] == L and in_loop[1][2] == U
+    out.append(("chunk-body", ok_order and ok_counts,
+                "every full chunk is num_labeled labeled followed by num_unlabeled unlabeled positions" if ok_order and ok_counts else
+                f"a full chunk takes {show(in_loop[0][2])} {in_loop[0][1]} then {show(in_loop[1][2])} {in_loop[1][1]} positions, not "
+                f"num_labeled labeled followed by num_unlabeled unlabeled"))
+    a_, b_ = after
+    after = [a_, b_] if cfg.reachable(a_[0], b_[0]) else [b_, a_]
+    T = None
+    for lf in leaves(after[0][2]) | leaves(after[1][2]):
+        if lf[0] == "var" and lf[1] == trail:
+            T = lf
+    if T is None:
+        return out + [("trailing", None, "the trailing positions are not derived from the remainder of the division: not decided")]
+
+    def is_min(t, a, b):
+        return t[0] == "call" and t[1] == ("global", "min") and set(t[2]) == {a, b}
+
+    def is_max0(t, inner_poly):
+        if not (t[0] == "call" and t[1] == ("global", "max") and len(t[2]) == 2):
+            return False
+        a, b = t[2]
+        for x, y in ((a, b), (b, a)):
+            if y == ("const", 0) and term_to_poly(x) == inner_poly:
+                return True
+        return False
+    ok_l = after[0][1] == "labeled" and is_min(after[0][2], T, L)
+    ok_u = after[1][1] == "unlabeled" and is_max0(after[1][2], Poly.atom(T) - Poly.atom(L))
+    out.append(("trailing", ok_l and ok_u,
+                "the trailing positions are min(rest, num_labeled) labeled followed by max(rest - num_labeled, 0) unlabeled"
+                if ok_l and ok_u else
+                f"the trailing positions are {show(after[0][2])} {after[0][1]} followed by {show(after[1][2])} {after[1][1]}: not "
+                f"min(rest, num_labeled) labeled followed by max(rest - num_labeled, 0) unlabeled - the epoch is not len(self) long "
+                f"or the labeled / unlabeled alternation breaks at its end"))
+    return out
 
 
 def weighted(prog: Program, rep: Report):
